@@ -268,3 +268,80 @@ func genMsg(g *hx.Gen) {
 		emitMsg(g, "elanet", magic, frame(magic, "inv", uint32(len(s.Bytes)), s.Bytes, s.Bytes))
 	}
 }
+
+// ---------------------------------------------------------------- message payload codecs
+//
+//	dmsg <package.Type> <hex> [own]   →  ok <consumed> <re-encoding> | err | unmodelled
+//
+// The payload codec (Serialize / Deserialize) of a p2p / DPoS p2p message type on its own.  The
+// Lean side decodes the same bytes with the schema derived from the regenerated read-token stream.
+
+var codecTypes = map[string]func() p2p.Message{
+	"dpos/p2p/msg.Addr": func() p2p.Message { return &dmsg.Addr{} }, "dpos/p2p/msg.GetBlock": func() p2p.Message { return &dmsg.GetBlock{} },
+	"dpos/p2p/msg.GetBlocks": func() p2p.Message { return &dmsg.GetBlocks{} }, "dpos/p2p/msg.IllegalProposals": func() p2p.Message { return &dmsg.IllegalProposals{} },
+	"dpos/p2p/msg.IllegalVotes": func() p2p.Message { return &dmsg.IllegalVotes{} }, "dpos/p2p/msg.Inventory": func() p2p.Message { return &dmsg.Inventory{} },
+	"dpos/p2p/msg.Proposal": func() p2p.Message { return &dmsg.Proposal{} }, "dpos/p2p/msg.RequestConsensus": func() p2p.Message { return &dmsg.RequestConsensus{} },
+	"dpos/p2p/msg.RequestProposal": func() p2p.Message { return &dmsg.RequestProposal{} }, "dpos/p2p/msg.ResetView": func() p2p.Message { return &dmsg.ResetView{} },
+	"dpos/p2p/msg.ResponseInactiveArbitrators": func() p2p.Message { return &dmsg.ResponseInactiveArbitrators{} },
+	"dpos/p2p/msg.ResponseRevertToDPOS":        func() p2p.Message { return &dmsg.ResponseRevertToDPOS{} },
+	"dpos/p2p/msg.SidechainIllegalData":        func() p2p.Message { return &dmsg.SidechainIllegalData{} },
+	"dpos/p2p/msg.VerAck":                      func() p2p.Message { return &dmsg.VerAck{} }, "dpos/p2p/msg.Vote": func() p2p.Message { return &dmsg.Vote{} },
+	"dpos/p2p/msg.ResponseConsensus": func() p2p.Message { return &dmsg.ResponseConsensus{} },
+	"p2p/msg.FilterAdd":              func() p2p.Message { return &msg.FilterAdd{} }, "p2p/msg.Reject": func() p2p.Message { return &msg.Reject{} },
+	"p2p/msg.TxFilterLoad": func() p2p.Message { return &msg.TxFilterLoad{} },
+}
+
+func codecNames() []string {
+	var ns []string
+	for n := range codecTypes {
+		ns = append(ns, n)
+	}
+	sort.Strings(ns)
+	return ns
+}
+
+func execDmsg(t []string) string {
+	mk, ok := codecTypes[t[1]]
+	if !ok {
+		panic("harness: unknown message type " + t[1])
+	}
+	b := hx.UnHex(t[2])
+	m := mk()
+	r := bytes.NewReader(b)
+	if err := m.Deserialize(r); err != nil {
+		return "err"
+	}
+	w := new(bytes.Buffer)
+	if err := m.Serialize(w); err != nil {
+		return "err"
+	}
+	return fmt.Sprintf("ok %d %s", len(b)-r.Len(), hx.Hex(w.Bytes()))
+}
+
+func dmsgOracle(t []string, out string) *hx.Violation {
+	own := len(t) > 3 && t[3] == "own"
+	f := strings.Fields(out)
+	if own && (len(f) != 3 || f[0] != "ok" || f[2] != t[2]) {
+		return &hx.Violation{Kind: "own-bytes-not-roundtrip", Detail: "a " + t[1] + " message written by Serialize is not read back identically: " + out}
+	}
+	return nil
+}
+
+func genDmsg(g *hx.Gen) {
+	r := g.R
+	for _, n := range codecNames() {
+		for i := 0; i < g.N(6, 60); i++ {
+			m := codecTypes[n]()
+			wire.Fill(r, m)
+			w := new(bytes.Buffer)
+			if err := m.Serialize(w); err != nil {
+				continue
+			}
+			b := w.Bytes()
+			g.Emit("dmsg %s %s own", n, hx.Hex(b))
+			if len(b) > 0 {
+				g.Emit("dmsg %s %s", n, hx.Hex(b[:r.Intn(len(b))]))
+			}
+		}
+	}
+}
